@@ -55,9 +55,61 @@ def unLen (p : Bytes) : Option Bytes :=
   | some (n, r) => if r.length = n then some r else none
   | none => none
 
+/-! ### strict parsing for the checker: keys and length prefixes in their minimal form
+(what an encoder writes; `Spec.Enc` is about encoders, the decoder below is lenient) -/
+
+def readCanon (bs : Bytes) : Option (Nat × Bytes) :=
+  match readVarint bs with
+  | some (n, r) => if bs = base128 n ++ r then some (n, r) else none
+  | none => none
+
+def parseRecC (bs : Bytes) : Option (Rec × Bytes) :=
+  match readCanon bs with
+  | none => none
+  | some (key, r) =>
+    let tag := key / 8
+    if tag < 1 ∨ tag > 2 ^ 29 - 1 then none
+    else match key % 8 with
+      | 0 => match readVarint r with
+        | some (_, r') => if r = r.take (r.length - r'.length) ++ r' then some ({ tag := tag, wt := .varint, payload := r.take (r.length - r'.length) }, r') else none
+        | none => none
+      | 1 => (takeExact 8 r).map fun (p, r') => ({ tag := tag, wt := .i64, payload := p }, r')
+      | 5 => (takeExact 4 r).map fun (p, r') => ({ tag := tag, wt := .i32, payload := p }, r')
+      | 2 => match readVarint r with
+        | some (n, r') => match takeExact n r' with
+          | some (_, r'') => if r = r.take (r.length - r''.length) ++ r'' then some ({ tag := tag, wt := .len, payload := r.take (r.length - r''.length) }, r'') else none
+          | none => none
+        | none => none
+      | _ => none
+
+def parseRecsC : Nat → Bytes → Option (List Rec)
+  | 0, _ => none
+  | f + 1, bs =>
+    if bs.isEmpty then some []
+    else match parseRecC bs with
+      | some (r, rest) => (parseRecsC f rest).map (r :: ·)
+      | none => none
+
+/-- body of a length-delimited payload whose prefix is minimal. -/
+def unLenC (p : Bytes) : Option Bytes :=
+  match readCanon p with
+  | some (n, r) => if r.length = n then some r else none
+  | none => none
+
 /-! ### the checker: does `rs` encode the value? (mirrors `EncSlots`, decidably) -/
 
 def beqBytes (a b : Bytes) : Bool := decide (a = b)
+
+/-- the longest prefix of `vs` whose payloads make up `b`; returns what is left of `vs`. -/
+def eatRun (pt : PType) : Nat → Bytes → List SVal → Option (List SVal)
+  | 0, _, _ => none
+  | f + 1, b, vs =>
+    if b.isEmpty then some vs
+    else match vs with
+      | v :: vs' =>
+        let e := encScalar pt v
+        if e.isPrefixOf b && !e.isEmpty then eatRun pt f (b.drop e.length) vs' else none
+      | [] => none
 
 /-- consume the records of a packable repeated field against the expected values. -/
 def checkPacked (t : Nat) (ty : PFTy) : List Rec → List SVal → Bool
@@ -69,20 +121,10 @@ def checkPacked (t : Nat) (ty : PFTy) : List Rec → List SVal → Bool
       | v :: vs' => beqBytes r.payload (encScalar (scalarTy ty) v) && checkPacked t ty rs vs'
       | [] => false
     else if r.wt == .len then
-      match unLen r.payload with
+      match unLenC r.payload with
       | some body =>
-        -- the run holds the longest prefix of `vs` whose payloads make up `body`
-        let rec eat : Nat → Bytes → List SVal → Option (List SVal)
-          | 0, _, _ => none
-          | f + 1, b, vs =>
-            if b.isEmpty then some vs
-            else match vs with
-              | v :: vs' =>
-                let e := encScalar (scalarTy ty) v
-                if e.isPrefixOf b && !e.isEmpty then eat f (b.drop e.length) vs' else none
-              | [] => none
         if body.isEmpty then false
-        else match eat (body.length + 1) body vs with
+        else match eatRun (scalarTy ty) (body.length + 1) body vs with
           | some rest => checkPacked t ty rs rest
           | none => false
       | none => false
@@ -106,8 +148,8 @@ def checkE (ps : PSchema) : PFTy → EVal → Rec → Bool
   | .enum, .s x, r => r.wt == .varint && beqBytes r.payload (encScalar .int32 x)
   | .msg i, .msg fs, r =>
     r.wt == .len &&
-    match unLen r.payload with
-    | some body => match parseRecs (body.length + 1) body with
+    match unLenC r.payload with
+    | some body => match parseRecsC (body.length + 1) body with
       | some rs => checkSlots ps (pdecls ps i) fs rs
       | none => false
     | none => false
@@ -154,8 +196,8 @@ def checkMap (ps : PSchema) (t : Nat) (k : PType) (vty : PFTy) : Pairs → List 
     match rs with
     | e :: rs' =>
       e.tag == t && e.wt == .len &&
-      (match unLen e.payload with
-       | some body => match parseRecs (body.length + 1) body with
+      (match unLenC e.payload with
+       | some body => match parseRecsC (body.length + 1) body with
          | some es =>
            es.all (fun x => x.tag == 1 || x.tag == 2) &&
            (match es.filter (fun x => x.tag == 1) with
@@ -174,7 +216,7 @@ end
 
 /-- **the executable checker** for `Spec.Enc`. -/
 def check (ps : PSchema) (i : Nat) (m : Slots) (bs : Bytes) : Bool :=
-  match parseRecs (bs.length + 1) bs with
+  match parseRecsC (bs.length + 1) bs with
   | some rs => checkSlots ps (pdecls ps i) m rs
   | none => false
 
